@@ -2,6 +2,7 @@ package props
 
 import (
 	"bytes"
+	"context"
 	"encoding/json"
 	"fmt"
 	"net/http"
@@ -17,6 +18,7 @@ import (
 	"k8s.io/apimachinery/pkg/api/resource"
 	metav1 "k8s.io/apimachinery/pkg/apis/meta/v1"
 	kubefake "k8s.io/client-go/kubernetes/fake"
+	corev1client "k8s.io/client-go/kubernetes/typed/core/v1"
 	"tkestack.io/galaxy/pkg/api/galaxy/constant"
 	"tkestack.io/galaxy/pkg/galaxy"
 	"tkestack.io/galaxy/pkg/network/portmapping"
@@ -67,8 +69,45 @@ func (i Invocation) brief() string {
 	return fmt.Sprintf("%s %s %s %s%s", i.Cmd, i.Type, i.CID, i.If, prev)
 }
 
+// lagKube is the fake clientset with one refinement the fake itself drops: a pod Get that allows a stale answer
+// (resourceVersion "0": "any version the apiserver's cache has") is answered from a cache that has not caught up with the
+// latest re-creation of the pod.
+type lagKube struct {
+	*kubefake.Clientset
+	h *cniHarness
+}
+
+func (k *lagKube) CoreV1() corev1client.CoreV1Interface {
+	return &lagCore{CoreV1Interface: k.Clientset.CoreV1(), h: k.h}
+}
+
+type lagCore struct {
+	corev1client.CoreV1Interface
+	h *cniHarness
+}
+
+func (c *lagCore) Pods(ns string) corev1client.PodInterface {
+	return &lagPods{PodInterface: c.CoreV1Interface.Pods(ns), h: c.h, ns: ns}
+}
+
+type lagPods struct {
+	corev1client.PodInterface
+	h  *cniHarness
+	ns string
+}
+
+func (p *lagPods) Get(ctx context.Context, name string, opts metav1.GetOptions) (*corev1.Pod, error) {
+	if opts.ResourceVersion == "0" {
+		if old, ok := p.h.stale[p.ns+"/"+name]; ok {
+			return old.DeepCopy(), nil
+		}
+	}
+	return p.PodInterface.Get(ctx, name, opts)
+}
+
 type cniHarness struct {
-	dir     string // scratch dir: plugins, log, conf
+	stale   map[string]*corev1.Pod // previous version of re-created pods (what a lagging cache still shows)
+	dir     string                 // scratch dir: plugins, log, conf
 	g       *galaxy.Galaxy
 	kube    *kubefake.Clientset
 	rest    *restful.Container
@@ -119,7 +158,8 @@ func newCNIHarness(conf daemonConf) (*cniHarness, error) {
 		return nil, err
 	}
 	h.kube = kubefake.NewSimpleClientset()
-	g.SetClient(h.kube)
+	h.stale = map[string]*corev1.Pod{}
+	g.SetClient(&lagKube{Clientset: h.kube, h: h})
 	h.kern = nfsim.New()
 	pmh := portmapping.NewVerif(utiliptables.New(h.kern.Exec(), utiliptables.ProtocolIpv4), "")
 	if err := pmh.EnsureBasicRule(); err != nil { // the daemon does this on start
@@ -197,6 +237,11 @@ func (h *cniHarness) putPod(p cniPod) {
 	if p.WantENI {
 		q := resource.NewQuantity(1, resource.DecimalSI)
 		pod.Spec.Containers[0].Resources.Requests = corev1.ResourceList{corev1.ResourceName(constant.ResourceName): *q}
+	}
+	if old, err := h.kube.Tracker().Get(corev1.SchemeGroupVersion.WithResource("pods"), "ns", p.Name); err == nil {
+		if op, ok := old.(*corev1.Pod); ok {
+			h.stale["ns/"+p.Name] = op.DeepCopy()
+		}
 	}
 	_ = h.kube.Tracker().Delete(corev1.SchemeGroupVersion.WithResource("pods"), "ns", p.Name)
 	_ = h.kube.Tracker().Add(pod)
